@@ -212,6 +212,17 @@ func NewChecker(initial map[string]string, nprog int) *Checker {
 
 func (c *Checker) cur() map[string]string { return c.Hist[len(c.Hist)-1] }
 
+// Ver is the index of the latest committed reference state.
+func (c *Checker) Ver() int { return len(c.Hist) - 1 }
+
+// SetBeginVer widens the window of committed states a transaction's snapshot
+// may stem from (used when an environment event lands INSIDE its begin step).
+func (c *Checker) SetBeginVer(p, v int) {
+	if v < c.Txs[p].beginVer {
+		c.Txs[p].beginVer = v
+	}
+}
+
 // Violation describes a disagreement with the reference.
 type Violation struct {
 	Kind string
